@@ -24,7 +24,7 @@ ASSUMPTIONS = ['from depth 2 on an event must involve the newest object or be an
 
 def BOUNDS(tier):
     return {'depth': 2 if tier == 'quick' else 3, 'initial_pools': explore.NPOOLS, 'pool_cap': explore.MAXPOOL,
-            'events': sorted(explore.EVBYNAME), 'slow_events_included': tier != 'quick', 'merged_depth': None if tier == 'quick' else 4}
+            'events': sorted(explore.EVBYNAME), 'slow_events_included': 'depth 1 always; deeper levels in the thorough tier', 'merged_depth': None if tier == 'quick' else 4}
 
 
 def cases(tier, seed):
